@@ -228,8 +228,11 @@ func cpRender(p *CPPlan) *cpRendered {
 			case "spreadcall":
 				// f(xs...): the spread form of a call to a variadic function
 				if s.Target > fi && s.Target < len(p.Funcs) && p.Funcs[s.Target].Variadic {
+					// the marker goes on the line BEFORE the call: the previously dispatched call must
+					// not share the spread call's line
 					emit(ind + fmt.Sprintf("dd%d := []int{d}", line+1))
-					emit(ind + fmt.Sprintf("host.At(%d); r = r + %s", line+1, cpCallExpr(s.Target, &p.Funcs[s.Target], fmt.Sprintf("dd%d...", line))))
+					emit(ind + fmt.Sprintf("host.At(%d)", line+2))
+					emit(ind + fmt.Sprintf("r = r + %s", cpCallExpr(s.Target, &p.Funcs[s.Target], fmt.Sprintf("dd%d...", line-1))))
 				}
 			case "dotcall":
 				// a method call split after the dot: the call's line is the line of "m("
@@ -656,7 +659,7 @@ func (crashpoint) Execute(plan any, keep bool) *core.Result {
 		return finish()
 	}
 	if locs[0] != want[0] {
-		res.Fail("C20", "C20/site", site.Kind, "a %s fault in %s at line %d is reported at %s line %d (opcode %s, optimizer on=%v)", site.Kind, want[0].Func, want[0].Line, locs[0].Func, locs[0].Line, opcode, !p.OptimizeOff)
+		res.Fail("C20", "C20/site", site.Kind, "a %s fault in %s at %s:%d is reported at %s %s:%d (opcode %s, optimizer on=%v)", site.Kind, want[0].Func, want[0].File, want[0].Line, locs[0].Func, locs[0].File, locs[0].Line, opcode, !p.OptimizeOff)
 		return finish()
 	}
 	if len(locs) != len(want) {
